@@ -38,27 +38,46 @@ theorem endsOf_closed_outcome (be : BlockEnd) (r : Bool) (ch : List CtxId) (excs
   all_goals simp [endsOf]
 
 /-- Callbacks that register nothing run in stack order. -/
-theorem runOrder_regCb (l : List (Nat × Bool)) : runOrder (l.map regCb) = l.map regCb := by
+theorem runOrder_lateCbs (l : List (Nat × Bool)) (stack : List Cb) :
+    runOrder (l.map lateCb ++ stack) = l.map lateCb ++ runOrder stack := by
+  induction l with
+  | nil => rfl
+  | cons q l ih =>
+    rw [List.map_cons, List.cons_append, lateCb, runOrder_cons, List.reverse_nil, List.nil_append, ih]
+    rfl
+
+/-- A stack of registered callbacks: each is followed by what it registers, last first. -/
+theorem runOrder_regCbs (l : List RegSpec) :
+    runOrder (l.map regCb) = l.flatMap fun r => regCb r :: (r.late.map lateCb).reverse := by
   induction l with
   | nil => exact runOrder_nil
   | cons r l ih =>
-    rw [List.map_cons]
-    unfold regCb at ih ⊢
-    rw [runOrder_cons, List.reverse_nil, List.nil_append, ih]
+    rw [List.map_cons, List.flatMap_cons, regCb, runOrder_cons, ← List.map_reverse,
+      runOrder_lateCbs, ih, List.map_reverse]
+    rfl
+
+/-- The run of the stack of `runApp`. -/
+theorem runOrder_regs (regs : List RegSpec) :
+    runOrder (regs.map regCb).reverse = expectedCbs regs := by
+  rw [← List.map_reverse, runOrder_regCbs]
+  rfl
 
 theorem runApp_starts (c : RunCase) :
     startsOf (runApp c).1 =
-      c.regs.reverse.map fun r => (r.1, if r.2 then some (blockEndOf c.ending).exc else none) := by
+      (expectedOrder c.regs).map fun r => (r.1, if r.2 then some (blockEndOf c.ending).exc else none) := by
   obtain ⟨x, excs, h⟩ := runApp_trace c
   rw [h, startsOf_append, startsOf_closed_outcome, List.append_nil, C01_lifo_and_argument,
-    ← List.map_reverse, runOrder_regCb, List.map_map]
+    runOrder_regs, ← expectedCbs_key, List.map_map]
   rfl
 
 theorem runApp_ends (c : RunCase) :
-    endsOf (runApp c).1 = c.regs.reverse.map (fun r => (r.1, none)) := by
+    endsOf (runApp c).1 = (expectedOrder c.regs).map (fun r => (r.1, none)) := by
   obtain ⟨x, excs, h⟩ := runApp_trace c
   rw [h, endsOf_append, endsOf_closed_outcome, List.append_nil, C01_all_finish,
-    ← List.map_reverse, runOrder_regCb, List.map_map]
+    runOrder_regs, ← expectedCbs_key, List.map_map]
+  apply List.map_congr_left
+  intro cb hcb
+  rw [expectedCbs_raises c.regs cb hcb]
   rfl
 
 /-- Status 0 — run() returning None or 0, or a termination signal after start-up of a non-CLI
@@ -95,23 +114,25 @@ theorem C15_exit_crash (e : Nat) :
     exitOf (.cliRaise e) = .propagated e ∧ exitOf (.crashAfterStartup e) = .propagated e := by
   exact ⟨rfl, rfl⟩
 
-/-- However the application ends, every teardown callback registered on the root context runs,
-in reverse order of registration, each receiving the block's exception iff it asked for it. -/
+/-- However the application ends, every teardown callback registered on the root context —
+before or during the teardown — runs, in reverse order of registration (`expectedOrder`), each
+receiving the block's exception iff it asked for it. -/
 theorem C15_teardown (c : RunCase) :
     startsOf (runApp c).1 =
-      c.regs.reverse.map fun r => (r.1, if r.2 then some (blockEndOf c.ending).exc else none) := by
+      (expectedOrder c.regs).map fun r => (r.1, if r.2 then some (blockEndOf c.ending).exc else none) := by
   exact runApp_starts c
 
 /-- Exactly once each. -/
 theorem C15_teardown_once (c : RunCase) :
-    ((startsOf (runApp c).1).map Prod.fst).Perm (c.regs.map Prod.fst) := by
+    ((startsOf (runApp c).1).map Prod.fst).Perm
+      (c.regs.flatMap fun r => r.id :: r.late.map Prod.fst) := by
   rw [runApp_starts, List.map_map]
-  exact (List.reverse_perm c.regs).map _
+  exact expectedOrder_ids_perm c.regs
 
 /-- Every one of them runs to completion, and the root context reports itself closed, before
 the exit is produced. -/
 theorem C15_teardown_complete (c : RunCase) :
-    endsOf (runApp c).1 = c.regs.reverse.map (fun r => (r.1, none)) ∧ Out.closed ∈ (runApp c).1 := by
+    endsOf (runApp c).1 = (expectedOrder c.regs).map (fun r => (r.1, none)) ∧ Out.closed ∈ (runApp c).1 := by
   refine ⟨runApp_ends c, ?_⟩
   obtain ⟨x, excs, h⟩ := runApp_trace c
   rw [h]
@@ -121,10 +142,11 @@ theorem C15_teardown_complete (c : RunCase) :
 theorem C15_exit_independent (c : RunCase) : (runApp c).2 = exitOf c.ending := by
   rfl
 
-/-- Non-vacuity: three callbacks, run() raising. -/
+/-- Non-vacuity: three callbacks, the second registering two more while it runs, run() raising. -/
 example :
-    let c : RunCase := ⟨[(1, true), (2, false), (3, true)], .cliRaise 4⟩
-    startsOf (runApp c).1 = [(3, some (some (.exn 4))), (2, none), (1, some (some (.exn 4)))] ∧
+    let c : RunCase := ⟨[⟨1, true, []⟩, ⟨2, false, [(21, true), (22, false)]⟩, ⟨3, true, []⟩], .cliRaise 4⟩
+    startsOf (runApp c).1 =
+        [(3, some (some (.exn 4))), (2, none), (22, none), (21, some (some (.exn 4))), (1, some (some (.exn 4)))] ∧
       (runApp c).2 = .propagated 4 := by
   intro c
   refine ⟨?_, rfl⟩
